@@ -813,9 +813,21 @@ def r_row0(A, ctx, scope, rule="R-ROW0"):
                             and sub.value.attr.endswith("_") and "coef" in sub.value.attr:
                         first = sub.slice.elts[0] if isinstance(sub.slice, ast.Tuple) else sub.slice
                         if isinstance(first, ast.Constant) and first.value == 0:
-                            guarded = any(isinstance(t, ast.expr) and any(
-                                k in ast.unparse(t) for k in ("classes_", "shape[0]", "ndim", "n_classes"))
-                                for t, lab, _ in cfg.facts_at(nd.id))
+                            def binary_side(t, lab):
+                                """does (test, branch) establish the binary case?  A test whose orientation is
+                                not recognised counts as a guard (no alarm on an unknown idiom)."""
+                                txt = ast.unparse(t).replace(" ", "")
+                                if not any(k in txt for k in ("classes_", "shape[0]", "ndim", "n_classes")):
+                                    return False
+                                multi_true = any(k in txt for k in (">2", ">=3", "ndim>1", "ndim==2", "!=2"))
+                                bin_true = any(k in txt for k in ("<=2", "==2", "<3", "ndim==1", "ndim<2", "shape[0]==1"))
+                                if multi_true and not bin_true:
+                                    return lab == "false"
+                                if bin_true and not multi_true:
+                                    return lab == "true"
+                                return True
+                            guarded = any(isinstance(t, ast.expr) and binary_side(t, lab)
+                                          for t, lab, _ in cfg.facts_at(nd.id))
                             if not guarded:
                                 hits.append(sub)
             # a hand-written linear score carries the intercept
@@ -1118,3 +1130,39 @@ def r_weights_guard(A, ctx, scope, rule="R-WEIGHTS-GUARD"):
                                 "restricted to `self.weights is None`: when weights are given they are silently ignored "
                                 "there (the documented weighted objective is not the one solved)", loc=loc(m, c))
     ctx.floor(rule, n, scope.get("floor", 6))
+
+
+def r_squeeze(A, ctx, scope, rule="R-SQUEEZE"):
+    """C12 / C11: fitted arrays keep their axes whatever the number of features, samples or classes"""
+    ctx.rule(rule, "no axis-less squeeze on fitted or data arrays: `np.squeeze(a)` / `a.squeeze()` without `axis=` removes "
+             "every axis of length one, so the shape of the result depends on the data (one feature, one sample, one "
+             "class): a per-class matrix assembled that way loses its rows / columns exactly in those cases")
+    em = A.prog.modules.get("skglm.estimators")
+    if em is None:
+        raise AnalysisError("skglm.estimators missing")
+    probe = ast.parse("def f(a):\n    b = np.squeeze(a)\n    c = a.squeeze()\n    d = np.squeeze(a, axis=1)\n    return b, c, d\n")
+    if len(_axisless_squeezes(probe)) != 2:
+        raise AnalysisError("R-SQUEEZE matcher lost its examples")
+    n = 0
+    funcs = list(em.functions.values()) + [m for c in em.classes.values() for m in c.methods.values()]
+    for f in funcs:
+        n += 1
+        for c in _axisless_squeezes(f.node):
+            ctx.ob(rule, f"{f.fq}::{norm_src(c)[:50]}", False,
+                   what=f"{f.qualname}: `{norm_src(c)[:60]}` squeezes every unit axis: with a single feature (or sample, "
+                        "or class) the assembled array loses that axis too, and decision_function / predict fail or "
+                        "read the wrong axis", loc=loc(f, c))
+    ctx.floor(rule, n, scope.get("floor", 40))
+
+
+def _axisless_squeezes(tree):
+    out = []
+    for c in ast.walk(tree):
+        if isinstance(c, ast.Call) and not any(k.arg == "axis" for k in c.keywords):
+            fn = ast.unparse(c.func)
+            if fn in ("np.squeeze", "numpy.squeeze") and len(c.args) == 1:
+                out.append(c)
+            elif isinstance(c.func, ast.Attribute) and c.func.attr == "squeeze" and not c.args \
+                    and not fn.startswith(("np.", "numpy.")):
+                out.append(c)
+    return out
